@@ -1006,11 +1006,13 @@ def _flex_geom_vertex_narrowphase_detect(warn_overflow: bool):
         )
 
       if dist < margin:
+        # the primitives return the normal from the first argument (the vertex sphere) to the geom;
+        # the contact is stored as (geom, flex), so its normal must point from the geom to the vertex
         _write_candidate(
           max_candidates,
           dist,
           contact_pos,
-          nrm,
+          -nrm,
           geomid,
           -1,
           flexid,
